@@ -1218,6 +1218,7 @@ class ChoicePayloadDecoder(ConstructedPayloadDecoderBase):
 
                 if isinstance(component, SubstrateUnderrunError):
                     yield component
+                    continue
 
                 if component is eoo.endOfOctets:
                     break
